@@ -220,13 +220,16 @@ pub fn run_mesh(c: &MeshCase) -> CaseResult {
 pub struct SilenceCase {
     pub from_second: i64,
     pub timeout: u32,
+    /// the timeout the silent node is configured with (and advertises); None = the same as everybody
+    #[serde(default)]
+    pub victim_timeout: Option<u32>,
 }
 
 pub fn run_silence(c: &SilenceCase) -> CaseResult {
     let cfgs: Vec<_> = (0..3)
         .map(|i| {
             let mut cfg = base_config(Mode::Router, Type::Tun, 0, &[0]);
-            cfg.peer_timeout = c.timeout;
+            cfg.peer_timeout = if i == 2 { c.victim_timeout.unwrap_or(c.timeout) } else { c.timeout };
             cfg.claims = vec![format!("10.{}.0.0/16", i)];
             cfg
         })
@@ -235,14 +238,30 @@ pub fn run_silence(c: &SilenceCase) -> CaseResult {
     if !net.fully_meshed() {
         return Err(Fail::new("no_mesh", "mesh did not form"));
     }
+    // last second in which node 0 was handed anything from node 2
+    let mut last_heard = net.now;
     for _ in 0..c.from_second {
         net.tick();
-        net.deliver_all(512);
+        while let Some(w) = net.queue.pop_front() {
+            if w.from == net.addrs[2] && w.to == net.addrs[0] {
+                last_heard = net.now;
+            }
+            net.hand_over(w);
+        }
     }
     // node 2 falls silent: nothing it sends arrives, nothing reaches it
     net.silenced[2] = true;
     let victim = net.addrs[2];
-    let expiry_0 = net.nodes[0].verif_peers().iter().find(|p| p.addr == victim).map(|p| p.timeout).unwrap_or(0);
+    // the deadline by the statement: the CONFIGURED peer timeout of the node that waits, counted from the last refresh
+    let view = net.nodes[0].verif_peers().into_iter().find(|p| p.addr == victim).ok_or_else(|| Fail::new("no_mesh", "victim is no peer when the silence starts"))?;
+    if view.last_seen > last_heard {
+        return Err(Fail::new("refreshed_without_datagram", format!("last_seen +{} is later than the last datagram from the peer (+{})", view.last_seen - START_TIME, last_heard - START_TIME)));
+    }
+    let expiry_0 = view.last_seen + c.timeout as i64;
+    if view.timeout != expiry_0 {
+        return Err(Fail::new("wrong_deadline", format!("peer refreshed at +{}: deadline +{} instead of refresh + configured timeout {} = +{}", view.last_seen - START_TIME, view.timeout - START_TIME, c.timeout, expiry_0 - START_TIME))
+            .with("victim_timeout_differs", c.victim_timeout.map(|v| v != c.timeout).unwrap_or(false)));
+    }
     let mut removed_at: Option<i64> = None;
     let mut dialled = false;
     for _ in 0..(c.timeout as i64 + 130) {
@@ -381,9 +400,13 @@ pub fn run(ctx: &Ctx) {
     sweep_list(ctx, "heterogeneous_meshes", &meshes, SweepOpts { chunk: 1, ..Default::default() }, run_mesh);
     let mut sil = vec![];
     for t in 0..=200 {
-        sil.push(SilenceCase { from_second: t, timeout: 300 });
+        sil.push(SilenceCase { from_second: t, timeout: 300, victim_timeout: None });
         if ctx.tier == Tier::Thorough || t % 10 == 0 {
-            sil.push(SilenceCase { from_second: t, timeout: 120 });
+            sil.push(SilenceCase { from_second: t, timeout: 120, victim_timeout: None });
+        }
+        if ctx.tier == Tier::Thorough || t % 20 == 3 {
+            sil.push(SilenceCase { from_second: t, timeout: 300, victim_timeout: Some(140) });
+            sil.push(SilenceCase { from_second: t, timeout: 140, victim_timeout: Some(300) });
         }
     }
     sweep_list(ctx, "silence", &sil, SweepOpts { chunk: 1, ..Default::default() }, run_silence);
